@@ -225,6 +225,8 @@ class Wallet:
         for account in self.accounts:
             if account.encrypted:
                 if not account.decrypt(password):
+                    for opened in unlocked:  # a refused password leaves the wallet as it was
+                        opened.encrypt(password)
                     return False
                 unlocked.append(account)
         if unlocked:
